@@ -34,6 +34,23 @@ func setNoOptions(xs []string) string {
 	return setOf(out)
 }
 
+// crossing: a has a literal where b has a variable AND b has a literal where a has a variable.
+func crossing(a, b rt.Tmpl) bool {
+	if len(a) != len(b) {
+		return false
+	}
+	ab, ba := false, false
+	for i := range a {
+		if a[i].Kind == rt.Lit && b[i].Kind != rt.Lit {
+			ab = true
+		}
+		if b[i].Kind == rt.Lit && a[i].Kind != rt.Lit {
+			ba = true
+		}
+	}
+	return ab && ba
+}
+
 func setOf(xs []string) string {
 	m := map[string]bool{}
 	for _, xx := range xs {
@@ -261,6 +278,7 @@ func c18(ctx *core.Ctx) {
 		o := commonGenOpts()
 		o.Conds = true
 		o.StarMedia = true
+		o.Twins = true
 		t := rt.GenTable(r, o)
 		ctx.Case(ti, "table="+core.JSON(t))
 		var cs [2]*restful.Container
@@ -300,12 +318,17 @@ func c18(ctx *core.Ctx) {
 					sa, ta := t.Route(ra)
 					sb, tb := t.Route(rb)
 					fa, fb := rt.Full(sa, ta), rt.Full(sb, tb)
-					if routeDominates(fa, fb) || routeDominates(fb, fa) || len(fa) != len(fb) {
+					switch {
+					case fa.String() == fb.String():
+						sig = "c18:rank-same-template" // twins (same method and template): both routers must take the first registered
+					case routeDominates(fa, fb) || routeDominates(fb, fa) || len(fa) != len(fb):
 						sig = "c18:rank-dominated"
-					} else {
-						// neither template is more specific than the other: KNOWN_FINDINGS.txt (ranking policies differ)
+					case crossing(fa, fb):
+						// each template has a literal where the other has a variable: KNOWN_FINDINGS.txt (ranking policies differ)
 						sig = "c18:rank-incomparable"
 						ctx.Count("known_rank_incomparable", 1)
+					default:
+						sig = "c18:rank-same-shape"
 					}
 				}
 				ctx.Violation(ti, sig, fmt.Sprintf("%s %q (ct=%q accept=%q body=%d): CurlyRouter -> %s, RouterJSR311 -> %s", req.Method, req.Path, req.CT, req.Accept, req.BodyLen, a.Sig(), b.Sig()),
